@@ -201,7 +201,7 @@ class SpectralDensity(DFunction, UnitsManaged):
                     
                 elif ftype == "Underdamped":
            
-                    self._make_underdamped(params)
+                    self._make_underdamped(prms)
                     
                 elif ftype == "B777":
                     
@@ -209,7 +209,7 @@ class SpectralDensity(DFunction, UnitsManaged):
                     
                 elif ftype == "CP29":
                     
-                    self._make_CP29_spectral_density(params, values)
+                    self._make_CP29_spectral_density(prms, values)
                     
                 elif ftype == "Value-defined":
         
